@@ -18,7 +18,7 @@ from tr_blobs import (Unsupported, clang_ast, annotate, kids, unwrap, qtype, nor
                       callee_name, int_literal, refers_to, PRIM_DEC, PRIM_ENC, PRIMS)
 
 SRC = "src/djinterop/engine/v1/performance_data_format.cpp"
-TARGET = os.path.join(LEAN, "EngineModel", "Gen", "ImplV1Gen.lean")
+TARGET = os.environ.get("VERIF_V1_TARGET") or os.path.join(LEAN, "EngineModel", "Gen", "ImplV1Gen.lean")   # (override: dry runs)
 
 EXN = dict(T2.EXN)
 EXN["djinterop::hot_cues_overflow"] = '(.dj "hot_cues_overflow")'
